@@ -1,5 +1,5 @@
 """C17 — -regex/-iregex: whole path, in the syntax selected by the nearest preceding -regextype."""
-from .. import dispatch, prim
+from .. import dispatch, fmtlit, prim
 from . import common as C
 from . import c07
 
@@ -17,6 +17,10 @@ META = {
 
 NAMES = {"emacs": "Emacs", "grep": "Grep", "posix-basic": "PosixBasic", "posix-extended": "PosixExtended", "ed": "PosixBasic", "sed": "PosixBasic"}
 SYNTAX = {"Emacs": "emacs", "Grep": "grep", "PosixBasic": "posix_basic", "PosixExtended": "posix_extended"}
+
+
+QMARK_GROUP_EFFECT = 2 << 32          # onig_sys::ONIG_SYN_OP2_QMARK_GROUP_EFFECT << 32 (SyntaxOperator bit layout of the onig crate)
+ESC_GNU_BUF_ANCHOR = (1 << 15) << 32   # onig_sys::ONIG_SYN_OP2_ESC_GNU_BUF_ANCHOR << 32
 
 
 def run(ctx):
@@ -87,17 +91,63 @@ def run(ctx):
     nf = ctx.fn("R2", R + "RegexMatcher::new")
     if nf is not None:
         wo = [(b, t) for b, t in nf.calls() if (t.callee or "").startswith("onig::Regex::with_options") or (t.callee or "").startswith("onig::Regex::new")]
-        ctx.ob("R2", "compile-site", len(wo) == 1 and wo[0][1].j.get("callee_name") == "with_options", "RegexMatcher::new compiles at %d site(s) (%s); oracle: one Regex::with_options (Regex::new would ignore the syntax)" % (len(wo), [t.j.get("callee_name") for _, t in wo]), fn=nf, how="call sites")
-        if len(wo) == 1:
-            b, t = wo[0]
+        # two compilations: the user's pattern as it is in the selected syntax (validation; its failure is the function's
+        # failure), then the whole-path form that becomes the matcher's regex
+        stored = None
+        for b0 in nf.reachable():
+            for st in nf.blocks[b0].stmts:
+                if st.rv is not None and st.rv.k == "agg" and st.rv.j.get("adt") == R + "RegexMatcher":
+                    stored = prim.origin_of_operand(nf, st.rv.ops[st.rv.j["fields"].index("regex")])
+        raw_sites, anch_sites = [], []
+        for b0, t0 in wo:
+            po0 = prim.expand_single_def_vars(nf, prim.origin_of_operand(nf, t0.args[0])).strip()
+            (raw_sites if po0.k == "arg" and po0.a["name"] == "pattern" else anch_sites).append((b0, t0))
+        ok_sites = all(t0.j.get("callee_name") == "with_options" for _, t0 in wo) and len(anch_sites) == 1 and len(raw_sites) <= 1
+        if ok_sites and raw_sites:
+            rb, rt = raw_sites[0]
+            nxt = nf.blocks[rt.target].term if rt.target is not None else None
+            ok_sites = nxt is not None and nxt.k == "call" and nxt.j.get("callee_name") == "branch" and nf.dominates(rb, anch_sites[0][0])
+        if ok_sites:
+            ok_sites = stored is not None and any(c.a.get("bb") == anch_sites[0][0] and c.a["name"] == "with_options" for c in stored.call_nodes())
+        ctx.ob("R2", "compile-site", ok_sites, "RegexMatcher::new compiles at %d site(s) (%s: %d on the raw pattern, %d on a derived one); oracle: with_options only (Regex::new would ignore the syntax): optionally the raw pattern first, `?`-propagated, then exactly one derived pattern whose result is stored as the matcher's regex" % (len(wo), [t.j.get("callee_name") for _, t in wo], len(raw_sites), len(anch_sites)), fn=nf, how="call sites + provenance")
+        if len(anch_sites) == 1:
+            b, t = anch_sites[0]
+            # the derived pattern: per syntax, a non-capturing group around the user's pattern and the end-of-buffer anchor
+            al = t.args[0].place.local if t.args[0].place is not None else None
             po = prim.expand_single_def_vars(nf, prim.origin_of_operand(nf, t.args[0]))
-            ps = po.strip()
-            raw = ps.k == "arg"
-            consts = [c.get("v") for c in po.consts() if c.get("k") == "str"]
-            anchored = (not raw) and any(x.k == "arg" and x.a["name"] == "pattern" for x in po.walk()) and any(isinstance(v, str) and ("$" in v or "\\'" in v or "\\z" in v) for v in consts)
+            adtv = prog.adts.get(R + "RegexType")
+            vnames = {v["idx"]: v["name"] for v in adtv["variants"]} if adtv else {}
+            got = {}
+            subj_all = True
+            for fc in fmtlit.all_format_calls(nf):
+                if fc is None:
+                    continue
+                facts_ = [(var, holds) for adt_, var, holds, subj, gd in prim.variant_facts(nf, fc.bb, prog) if adt_.endswith("regex::RegexType")]
+                pos = [v for v, h in facts_ if h]
+                neg = [v for v, h in facts_ if not h]
+                vs = pos if pos else [v for v in vnames.values() if v not in neg]
+                ph = fc.placeholders()
+                subj_ok = len(ph) == 1 and ph[0]["plain"] and fc.args[ph[0]["index"]][1] is not None and any(x.k == "arg" and x.a["name"] == "pattern" for x in fc.args[ph[0]["index"]][1].walk())
+                subj_all = subj_all and subj_ok
+                for v in vs:
+                    got[v] = fc.shape() if v not in got else "<ambiguous>"
+            oracle = {"PosixExtended": "(?:{0})\\'", "Emacs": "\\(?:{0}\\)\\'", "Grep": "\\(?:{0}\\)\\'", "PosixBasic": "\\(?:{0}\\)\\'"}
+            anchored = all(got.get(v) == oracle[v] for v in oracle) and subj_all and po.strip().k != "arg"
             ctx.ob("R2", "end-anchor-inside-pattern", anchored,
-                   "the pattern handed to onig is %s: %s. onig's match at position 0 returns the first alternative that succeeds and is_match merely checks that this one result spans the text, so `-regextype posix-extended -regex 'r/(a|ab)'` rejects r/ab although it is in the language; the end-of-text requirement must be part of the compiled pattern (per-syntax group + end anchor around the user's pattern)" % (po.fmt()[:200], "the raw user string" if raw else "constants %s" % consts),
-                   fn=nf, where=prim.site(nf, b), how="provenance slice (contract O1)")
+                   "the pattern handed to onig for matching is built as %s (operand %s); oracle %s: onig's match at position 0 returns the first alternative that succeeds and the verdict merely checks that this one result spans the text, so `-regextype posix-extended -regex 'r/(a|ab)'` would reject r/ab although it is in the language — the end-of-text requirement must be part of the compiled pattern: a non-capturing group in the syntax's own spelling (back-references keep their numbers) + the end-of-buffer anchor" % (got, po.fmt()[:120], oracle),
+                   fn=nf, where=prim.site(nf, b), how="decoded format templates per RegexType arm (contract O1)")
+            # the syntax of the derived compile: a copy of the selected syntax with exactly the two operators the wrapper needs
+            en = [(b2, t2) for b2, t2 in nf.calls() if (t2.callee or "").startswith("onig::Syntax::enable_operators") or (t2.callee or "").startswith("onig::Syntax::set_operators") or (t2.callee or "").startswith("onig::Syntax::disable_operators") or (t2.callee or "").startswith("onig::Syntax::set_options") or (t2.callee or "").startswith("onig::Syntax::enable_behavior") or (t2.callee or "").startswith("onig::Syntax::set_behavior") or (t2.callee or "").startswith("onig::Syntax::set_meta_char")]
+            okops = len(en) == 1 and en[0][1].j.get("callee_name") == "enable_operators"
+            bits = None
+            if okops:
+                vo = prim.origin_of_operand(nf, en[0][1].args[1])
+                cs = [c.get("v") for c in vo.consts() if isinstance(c.get("v"), int)]
+                bits = 0
+                for c in cs:
+                    bits |= c
+                okops = bits == (QMARK_GROUP_EFFECT | ESC_GNU_BUF_ANCHOR) and all(c_.a["name"] == "bitor" for c_ in vo.call_nodes()) and nf.dominates(en[0][0], b)
+            ctx.ob("R2", "wrapper-operators", okops, "the syntax used for the derived pattern is modified by %s (operator bits %s); oracle: exactly enable_operators(QMARK_GROUP_EFFECT | ESC_GNU_BUF_ANCHOR) before the compile — what `(?:` and `\\'` need and nothing else (every other operator/behaviour/option of the selected syntax unchanged)" % ([t2.j.get("callee_name") for _, t2 in en], hex(bits) if bits is not None else None), fn=nf, where=prim.site(nf, b), how="call sites + constant operand")
             # options: IGNORECASE iff ignore_case
             oo = prim.origin_of_operand(nf, t.args[1])
             opts = {}
@@ -118,6 +168,7 @@ def run(ctx):
             vn = {v["idx"]: v["name"] for v in adt["variants"]} if adt else {}
             sw = [x for x in nf.reachable() if nf.blocks[x].term.k == "switch" and (prim.discr_type_of_switch(nf, x) or "").endswith("regex::RegexType")]
             got = {}
+            sw = [x for x in sw if any(nf.blocks[tg].term.k == "call" and (nf.blocks[tg].term.callee or "").startswith("onig::Syntax::") for _, tg in prim.switch_edges(nf, x))]
             if len(sw) == 1:
                 for lab, tgt in prim.switch_edges(nf, sw[0]):
                     if lab == "else":
